@@ -90,7 +90,8 @@ func newWorld() *world {
 
 // VS is the chain-prescribed validator set for height h.
 // Heights 1 and 2 use the genesis set (a finalization of height h can only change the set of h+2);
-// from height 3 on order and powers change every height, and at height 5 key 2 (the engine harness's
+// from height 3 on powers change every height and the order every second height (so 3 -> 4 is a power-only
+// change), and at height 5 key 2 (the engine harness's
 // own validator) is replaced by key 4. The last validator is always the Byzantine one.
 func (w *world) VS(h uint64) tmconsensus.ValidatorSet {
 	if vs, ok := w.vsets[h]; ok {
@@ -99,12 +100,20 @@ func (w *world) VS(h uint64) tmconsensus.ValidatorSet {
 	honest := []int{0, 1, 2}
 	pows := []uint64{10, 10, 10}
 	if h >= initialH+2 {
-		rot := int(h % 3)
+		// Heights 3 and 4 share keys and order and differ in powers only; the other transitions also change the order
+		// (and at height 5 a key).
+		rot := int(((h + 1) / 2) % 3)
 		honest = []int{honest[rot], honest[(rot+1)%3], honest[(rot+2)%3]}
 		// The total power changes markedly between consecutive heights (39, 39, 46, 53, 39, 46, ...), so that a
 		// threshold computed from a neighbouring height's total is observably wrong: at height 3, 17+10 reaches 2/3 of
 		// 39 but not of 46.
-		pows[0] = 10 + 7*((h+1)%3)
+		// The varying power belongs to key 0, never to key 2: that is the engine harness's own validator, whose
+		// signatures the world does not forge, so the other validators must be able to form certificates without it.
+		for i, k := range honest {
+			if k == 0 {
+				pows[i] = 10 + 7*((h+1)%3)
+			}
+		}
 		if h == 5 {
 			for i, k := range honest {
 				if k == 2 {
